@@ -1479,90 +1479,7 @@ func (g *Gen) runFrame() {
 	fn := fr.fn
 	li := loopsOf(fn)
 	fr.loopK = li.ord
-	if fr.c != nil && fr.c.EveryLoopIterates && g.depth == 0 {
-		// every for/range statement of the source must be a loop of the control-flow graph: a statement
-		// whose body always leaves it (`for ... { return f(x) }`) examines its first element only
-		nAst := 0
-		if syn := fn.Syntax(); syn != nil {
-			ast.Inspect(syn, func(n ast.Node) bool {
-				switch n.(type) {
-				case *ast.FuncLit:
-					return false
-				case *ast.ForStmt, *ast.RangeStmt:
-					nAst++
-				}
-				return true
-			})
-		}
-		save := g.curR
-		g.curR = "true"
-		p := "true"
-		if nAst > len(li.headers) {
-			p = "false"
-		}
-		g.ob("every-loop-iterates", "", p, fmt.Sprintf("the source has %d for/range statements, the control-flow graph %d loops: a loop body that always leaves the loop looks at its first element only", nAst, len(li.headers)))
-		g.curR = save
-	}
-	if fr.c != nil && fr.c.Deterministic && g.depth == 0 {
-		// the results are a function of the arguments and the heap: nothing in the body observes Go's map
-		// iteration order, a channel, the scheduler, or a callee not itself declared deterministic
-		var bad []string
-		var scan func(f *ssa.Function, depth int)
-		scan = func(f *ssa.Function, depth int) {
-			for _, b := range f.Blocks {
-				for _, in := range b.Instrs {
-					switch x := in.(type) {
-					case *ssa.Range:
-						if _, isMap := x.X.Type().Underlying().(*types.Map); isMap {
-							bad = append(bad, "range over a map")
-						}
-					case *ssa.Go:
-						bad = append(bad, "go statement")
-					case *ssa.Select:
-						bad = append(bad, "select")
-					case *ssa.Send:
-						bad = append(bad, "channel send")
-					case *ssa.UnOp:
-						if x.Op == token.ARROW {
-							bad = append(bad, "channel receive")
-						}
-					case ssa.CallInstruction:
-						cc := x.Common()
-						if _, ok := cc.Value.(*ssa.Builtin); ok {
-							continue
-						}
-						callee := cc.StaticCallee()
-						var ct *Contract
-						if callee != nil {
-							ct = g.contractFor(callee, cc)
-						}
-						if ct != nil && ct.Deterministic {
-							continue
-						}
-						// a callee that is seen through (declared `inline`, or a small helper) is judged by its body
-						if callee != nil && callee.Blocks != nil && depth < 3 && (ct == nil || ct.Inline) && g.inlineOK(callee, ct) {
-							scan(callee, depth+1)
-							continue
-						}
-						name := "a function value / interface method"
-						if callee != nil {
-							name = shortFn(funcKey(callee))
-						}
-						bad = append(bad, "call of "+name+" (not declared deterministic)")
-					}
-				}
-			}
-		}
-		scan(fn, 0)
-		save := g.curR
-		g.curR = "true"
-		p := "true"
-		if len(bad) > 0 {
-			p = "false"
-		}
-		g.ob("deterministic", "", p, "results are a function of arguments and heap only; offending: "+strings.Join(uniq(bad), "; "))
-		g.curR = save
-	}
+	g.structuralObs(fn, li)
 	order := topo(fn, li.back)
 	entryCur := g.cur
 	for _, b := range order {
@@ -1700,6 +1617,156 @@ func (g *Gen) runFrame() {
 			g.instr(in, li)
 		}
 		fr.heap[b] = g.cur
+	}
+}
+
+// obligations decided on the shape of the code alone (no symbolic execution)
+func (g *Gen) structuralObs(fn *ssa.Function, li *loopInfo) {
+	fr := g.fr
+	if fr.c != nil && fr.c.EveryLoopIterates && g.depth == 0 {
+		// every for/range statement of the source must be a loop of the control-flow graph: a statement
+		// whose body always leaves it (`for ... { return f(x) }`) examines its first element only
+		nAst := 0
+		if syn := fn.Syntax(); syn != nil {
+			ast.Inspect(syn, func(n ast.Node) bool {
+				switch n.(type) {
+				case *ast.FuncLit:
+					return false
+				case *ast.ForStmt, *ast.RangeStmt:
+					nAst++
+				}
+				return true
+			})
+		}
+		save := g.curR
+		g.curR = "true"
+		p := "true"
+		if nAst > len(li.headers) {
+			p = "false"
+		}
+		g.ob("every-loop-iterates", "", p, fmt.Sprintf("the source has %d for/range statements, the control-flow graph %d loops: a loop body that always leaves the loop looks at its first element only", nAst, len(li.headers)))
+		g.curR = save
+	}
+	if fr.c != nil && fr.c.NoMapIter && g.depth == 0 {
+		// C15-style order-insensitivity: no iteration over a Go map anywhere in this function or in the functions
+		// of its own package it reaches (a callee declared `deterministic` / `no map iteration` is trusted to
+		// its own check); callees in other packages are assumed not to leak a map's iteration order
+		var bad []string
+		seenFn := map[*ssa.Function]bool{}
+		var scan func(f *ssa.Function, depth int)
+		scan = func(f *ssa.Function, depth int) {
+			if seenFn[f] {
+				return
+			}
+			seenFn[f] = true
+			for _, b := range f.Blocks {
+				for _, in := range b.Instrs {
+					switch x := in.(type) {
+					case *ssa.Range:
+						if _, isMap := x.X.Type().Underlying().(*types.Map); isMap {
+							bad = append(bad, "range over a map in "+shortFn(funcKey(f)))
+						}
+					case *ssa.Go:
+						bad = append(bad, "go statement in "+shortFn(funcKey(f)))
+					case *ssa.Select:
+						bad = append(bad, "select in "+shortFn(funcKey(f)))
+					case ssa.CallInstruction:
+						cc := x.Common()
+						if _, ok := cc.Value.(*ssa.Builtin); ok {
+							continue
+						}
+						callee := cc.StaticCallee()
+						if callee == nil {
+							continue // function values / interface methods: outside this structural check (listed)
+						}
+						if ct := g.contractFor(callee, cc); ct != nil && (ct.Deterministic || ct.NoMapIter) {
+							continue
+						}
+						if callee.Pkg != nil && fn.Pkg != nil && callee.Pkg == fn.Pkg && callee.Blocks != nil {
+							if depth < 6 {
+								scan(callee, depth+1)
+							} else {
+								bad = append(bad, "call chain too deep at "+shortFn(funcKey(callee)))
+							}
+						}
+					}
+				}
+			}
+		}
+		scan(fn, 0)
+		g.assumptions["functions of other packages, function values and interface methods called from "+g.fnName+" do not expose a map's iteration order"] = true
+		save := g.curR
+		g.curR = "true"
+		p := "true"
+		if len(bad) > 0 {
+			p = "false"
+		}
+		g.ob("no-map-iteration", "", p, "no iteration over a Go map in the function or the same-package functions it reaches; offending: "+strings.Join(uniq(bad), "; "))
+		g.curR = save
+	}
+	if fr.c != nil && fr.c.Deterministic && g.depth == 0 {
+		// the results are a function of the arguments and the heap: nothing in the body observes Go's map
+		// iteration order, a channel, the scheduler, or a callee not itself declared deterministic
+		var bad []string
+		var scan func(f *ssa.Function, depth int)
+		scan = func(f *ssa.Function, depth int) {
+			for _, b := range f.Blocks {
+				for _, in := range b.Instrs {
+					switch x := in.(type) {
+					case *ssa.Range:
+						if _, isMap := x.X.Type().Underlying().(*types.Map); isMap {
+							if depth == 0 && fr.c.DetReason != "" {
+								g.assumptions["map iteration in "+g.fnName+" is order-insensitive: "+fr.c.DetReason] = true
+							} else {
+								bad = append(bad, "range over a map")
+							}
+						}
+					case *ssa.Go:
+						bad = append(bad, "go statement")
+					case *ssa.Select:
+						bad = append(bad, "select")
+					case *ssa.Send:
+						bad = append(bad, "channel send")
+					case *ssa.UnOp:
+						if x.Op == token.ARROW {
+							bad = append(bad, "channel receive")
+						}
+					case ssa.CallInstruction:
+						cc := x.Common()
+						if _, ok := cc.Value.(*ssa.Builtin); ok {
+							continue
+						}
+						callee := cc.StaticCallee()
+						var ct *Contract
+						if callee != nil {
+							ct = g.contractFor(callee, cc)
+						}
+						if ct != nil && ct.Deterministic {
+							continue
+						}
+						// a callee that is seen through (declared `inline`, or a small helper) is judged by its body
+						if callee != nil && callee.Blocks != nil && depth < 3 && (ct == nil || ct.Inline) && g.inlineOK(callee, ct) {
+							scan(callee, depth+1)
+							continue
+						}
+						name := "a function value / interface method"
+						if callee != nil {
+							name = shortFn(funcKey(callee))
+						}
+						bad = append(bad, "call of "+name+" (not declared deterministic)")
+					}
+				}
+			}
+		}
+		scan(fn, 0)
+		save := g.curR
+		g.curR = "true"
+		p := "true"
+		if len(bad) > 0 {
+			p = "false"
+		}
+		g.ob("deterministic", "", p, "results are a function of arguments and heap only; offending: "+strings.Join(uniq(bad), "; "))
+		g.curR = save
 	}
 }
 
